@@ -710,3 +710,249 @@ class E1Layout(ScriptEngine):
 
             if same_python(c["host_script"], c["script"]):
                 yield c
+
+
+class E1Types(E1Core):
+    """C02: typing swarm - mixed int/float/bool/str flows through branches, loops, helpers."""
+
+    name = "e1-types"
+    property_id = "C02"
+    rule = (
+        "core-language generator with a typing bias: names first assigned inside if/elif/else or a for body and used "
+        "afterwards (hoisting), conditional expressions and arithmetic mixing int and float, casts, comparisons across "
+        "types, lists with mixed numeric elements, helpers whose return paths mix int and float, float/str/bool "
+        "parameters; every name is printed after every assignment; x 2-3 worlds x 0-4 passes; distinct = trace digest"
+    )
+
+    def generate(self, rng, tier: str, avoid) -> dict:
+        from dst.gen.programs import GenOptions, ProgGen, random_world
+
+        opts = GenOptions(
+            max_stmts=rng.choice([8, 14, 22] if tier == "quick" else [10, 20, 36]),
+            max_depth=rng.choice([1, 2, 3]),
+            use_led=False,
+            use_lists=rng.random() < 0.5,
+            use_strings=rng.random() < 0.8,
+            use_floats=True,
+            use_helpers=rng.random() < 0.8,
+            use_sleep=False,
+            main_loop=rng.random() < 0.85,
+            typing_bias=True,
+        )
+        gen = ProgGen(rng, avoid, opts)
+        script = gen.generate()
+        worlds = [random_world(rng, script, rng.choice([0, 1, 2, 4])) for _ in range(rng.choice([2, 3]))]
+        return {"script": script, "worlds": worlds, "features": sorted(gen.features_used)}
+
+
+class E2Meta(ScriptEngine):
+    """C03: metamorphic pairs - literals (transpile-time folding) vs the same values through names,
+    with dead or zero-trip mutations of those names elsewhere in the script."""
+
+    name = "e2-meta"
+    property_id = "C03"
+    rule = (
+        "for every fold site (pins, delays, blink/fade/ramp arguments, len() of a literal-bound name, flash_pattern(name), "
+        "glyph(slot, name), ultrasonic model name, global initialisers) a script P with literals and a script P' with the "
+        "same values bound to names first, plus assignments/append/remove to those names inside branches the world never "
+        "takes and loops that run zero times; board(P') must refine host(P') and board(P) and board(P') must show the same "
+        "observable trace and LCD matrices; distinct = digest of P'"
+    )
+
+    def generate(self, rng, tier: str, avoid) -> dict:
+        from dst.gen.programs import random_world
+
+        r = rng
+        n = [0]
+
+        def name(prefix="k"):
+            n[0] += 1
+            return f"{prefix}{n[0]}"
+
+        binds: List[str] = []  # name bindings for P'
+        dead: List[str] = []   # dead mutations for P'
+
+        def lit(value, kind="int"):
+            """Returns (text in P, text in P')."""
+
+            text = repr(value)
+            if r.random() < 0.25:
+                return text, text
+            nm = name()
+            binds.append(f"{nm} = {text}")
+            how = r.random()
+            if kind == "int" and how < 0.5:
+                dead.append(r.choice([f"{nm} = {nm} + 1", f"{nm} += 3", f"{nm} = 0"]))
+            elif kind == "list" and how < 0.6 and "dead_list_mutation" not in avoid:
+                dead.append(r.choice([f"{nm}.append(1)", f"{nm}.remove({value[0]})" if value else f"{nm}.append(0)"]))
+            elif kind == "str" and how < 0.5:
+                dead.append(f'{nm} = {nm} + "x"')
+            return text, nm
+
+        head = [
+            "from Reduino import target", 'target("COM3")', "from Reduino.Communication import SerialMonitor", "from Reduino.Utils import sleep",
+            "from Reduino.Actuators import Led, RGBLed, Servo, DCMotor, Buzzer", "from Reduino.Sensors import Potentiometer, Ultrasonic",
+            "from Reduino.Displays import LCD", 'mon = SerialMonitor(9600, "COM3")', 'pot = Potentiometer("A0")',
+        ]
+        p_lines: List[Tuple[str, str]] = []  # (P, P')
+
+        def both(fmt: str, *pairs):
+            p_lines.append((fmt.format(*[a for a, _b in pairs]), fmt.format(*[b for _a, b in pairs])))
+
+        use_lcd = r.random() < 0.5
+        use_bz = r.random() < 0.4
+        use_us = r.random() < 0.4
+        both("led = Led({})", lit(r.choice([3, 5, 6, 9])))
+        if r.random() < 0.5:
+            both("sv = Servo({})", lit(10))
+        else:
+            p_lines.append(("sv = Servo(10, min_angle=0, max_angle=170)", "sv = Servo(10, min_angle=0, max_angle=170)"))
+        if use_lcd:
+            p_lines.append(("lcd = LCD(rs=12, en=11, d4=7, d5=4, d6=8, d7=2, cols=16, rows=2)",) * 2)
+        if use_bz:
+            both("bz = Buzzer({})", lit(13))
+        if use_us:
+            both("us = Ultrasonic(22, 23, sensor={})", lit(r.choice(["HC-SR04", "hc-sr04", "hc_sr04"]), "str"))
+        both("g = {}", lit(r.randint(0, 50)))
+        both("h = {} * 2 + 1", lit(r.randint(0, 9)))
+        ops = r.randint(3, 9)
+        body_setup: List[Tuple[str, str]] = []
+        body_loop: List[Tuple[str, str]] = []
+
+        def emit_op(target_list):
+            k = r.choice(["sleep", "blink", "bright", "fade", "flash", "servo", "len_s", "len_l", "glyph", "lcdw", "beep", "range", "measure", "globalexpr"])
+            fmt, pairs = None, ()
+            if k == "sleep":
+                fmt, pairs = "sleep({})", (lit(r.choice([0, 1, 7, 25])),)
+            elif k == "blink":
+                fmt, pairs = "led.blink({}, {})", (lit(r.choice([1, 5, 12])), lit(r.choice([1, 2, 3])))
+            elif k == "bright":
+                fmt, pairs = "led.set_brightness({})", (lit(r.choice([0, 1, 128, 255])),)
+            elif k == "fade":
+                fmt, pairs = "led.fade_in({}, {})", (lit(r.choice([51, 85, 128])), lit(r.choice([0, 2, 5])))
+            elif k == "flash":
+                pattern = [r.choice([0, 1, 1, 200]) for _ in range(r.randint(1, 4))]
+                fmt, pairs = "led.flash_pattern({}, {})", (lit(pattern, "list"), lit(r.choice([0, 3, 9])))
+            elif k == "servo":
+                fmt, pairs = "sv.write({})", (lit(r.choice([0, 45, 90, 170])),)
+            elif k == "len_s":
+                fmt, pairs = "mon.write(len({}))", (lit(r.choice(["", "abc", "hello world"]), "str"),)
+            elif k == "len_l":
+                fmt, pairs = "mon.write(len({}))", (lit([r.randint(0, 9) for _ in range(r.randint(1, 5))], "list"),)
+            elif k == "glyph" and use_lcd:
+                fmt, pairs = "lcd.glyph({}, {})", ((str(r.randint(0, 7)),) * 2, lit([r.randint(0, 31) for _ in range(8)], "list"))
+            elif k == "lcdw" and use_lcd:
+                fmt, pairs = "lcd.line({}, {})", (lit(r.randint(0, 1)), lit(r.choice(["hi", "ready", "0123456789abcdefXYZ"]), "str"))
+            elif k == "beep" and use_bz:
+                fmt, pairs = "bz.beep({}, on_ms={}, off_ms={}, times={})", (lit(r.choice([440, 880])), lit(r.choice([2, 9])), lit(r.choice([0, 4])), lit(r.choice([1, 2])))
+            elif k == "range":
+                cnt = lit(r.choice([0, 1, 3]))
+                target_list.append((f"for i{n[0]} in range({cnt[0]}):", f"for i{n[0]} in range({cnt[1]}):"))
+                target_list.append(("    led.toggle()",) * 2)
+                return
+            elif k == "measure" and use_us:
+                target_list.append(("mon.write(us.measure_distance())",) * 2)
+                return
+            elif k == "globalexpr":
+                a = lit(r.randint(1, 20))
+                target_list.append((f"g = g + {a[0]}", f"g = g + {a[1]}"))
+                target_list.append(("mon.write(g)",) * 2)
+                return
+            if fmt is None:
+                return
+            target_list.append((fmt.format(*[a for a, _b in pairs]), fmt.format(*[b for _a, b in pairs])))
+
+        for _ in range(ops):
+            emit_op(body_setup if r.random() < 0.6 else body_loop)
+        p_text = head + [a for a, _b in p_lines] + [a for a, _b in body_setup]
+        q_text = head + binds + [b for _a, b in p_lines]
+        # dead mutations: in a never-taken branch and in a zero-trip loop, placed before and after the uses
+        def dead_block(lines):
+            out = []
+            if not lines:
+                return out
+            sel = [l for l in lines if r.random() < 0.7]
+            if not sel:
+                return out
+            if r.random() < 0.5:
+                out.append("if pot.read() > 5000:")
+            else:
+                out.append("for z in range(0):")
+            out += ["    " + l for l in sel]
+            return out
+
+        q_text += dead_block(dead)
+        q_text += [b for _a, b in body_setup]
+        if r.random() < 0.5:
+            q_text += dead_block(dead)
+        if use_lcd:
+            p_text.append('mon.write("@setup")')
+            q_text.append('mon.write("@setup")')
+        p_text.append("while True:")
+        q_text.append("while True:")
+        loop_p = [a for a, _b in body_loop] or ["sleep(1)"]
+        loop_q = [b for _a, b in body_loop] or ["sleep(1)"]
+        p_text += ["    " + l for l in loop_p] + ['    mon.write("tick")']
+        q_text += ["    " + l for l in loop_q] + ["    " + l for l in dead_block(dead)] + ['    mon.write("tick")']
+        script_p = "\n".join(p_text) + "\n"
+        script_q = "\n".join(q_text) + "\n"
+        world = random_world(rng, script_q, r.choice([0, 1, 2, 3]))
+        world["pulse"] = {"23": [r.choice([0, 800, 5000]) for _ in range(12)]}
+        return {"script": script_q, "literal_script": script_p, "worlds": [world], "has_host": not (use_bz or use_us or use_lcd)}
+
+    def execute(self, case: dict) -> Outcome:
+        from dst.board import build
+        from dst.engines.e6_lcd import board_syncs
+
+        world = case["worlds"][0]
+        out = None
+        if case.get("has_host"):
+            out = super().execute(case)
+            if out.status != "ok":
+                return out
+        logs = []
+        for text in (case["literal_script"], case["script"]):
+            try:
+                cpp = transpile(text)
+            except (ValueError, SyntaxError) as exc:
+                logs.append(exc)
+                continue
+            try:
+                binary = build.build_sketch(cpp)
+            except build.BuildError as exc:
+                return Outcome("violation", cls="build", message="firmware does not build: " + _first_error(exc.stderr))
+            try:
+                run = build.run_sketch(binary, world)
+            finally:
+                build.discard(binary)
+            logs.append(run)
+        if isinstance(logs[0], Exception) or isinstance(logs[1], Exception):
+            if isinstance(logs[0], Exception) and isinstance(logs[1], Exception):
+                return Outcome("rejected", message=str(logs[0])[:160], probes={"rejected": 1})
+            which = "literal form" if isinstance(logs[0], Exception) else "named form"
+            bad = logs[0] if isinstance(logs[0], Exception) else logs[1]
+            # a rejection of only one form is allowed by the property (it speaks of behaviour), but is counted
+            return Outcome("rejected", message=f"only the {which} is rejected: {bad}"[:200], probes={"rejected_one_form": 1})
+        t_lit = parse_board_log(logs[0].log, logs[0].exit_code, logs[0].stderr)
+        t_var = parse_board_log(logs[1].log, logs[1].exit_code, logs[1].stderr)
+        if t_var.status != "ok":
+            return Outcome("violation", cls=f"status/{t_var.status}", message=t_var.detail[:300])
+        div = compare(t_var, t_lit, check_time=True)
+        if div is not None:
+            return Outcome("violation", cls="meta/" + "/".join(div.key()), message="named form (board) vs literal form (host column): " + div.describe())
+        s_lit, _ = board_syncs(logs[0].log)
+        s_var, _ = board_syncs(logs[1].log)
+        if [(m, {i: d["rows"] for i, d in b.items()}) for m, b in s_lit] != [(m, {i: d["rows"] for i, d in b.items()}) for m, b in s_var]:
+            return Outcome("violation", cls="meta/lcd", message="LCD contents differ between the literal and the named form")
+        g_lit = [l.split(" ", 2)[2] for l in logs[0].log.splitlines() if " GLYPH " in l]
+        g_var = [l.split(" ", 2)[2] for l in logs[1].log.splitlines() if " GLYPH " in l]
+        if g_lit != g_var:
+            return Outcome("violation", cls="meta/glyph", message=f"glyph uploads differ: literal {g_lit[:2]} named {g_var[:2]}")
+        return Outcome("ok", digest=sha(case["script"])[:16], nontrivial=nontrivial(t_var), sim_ms=t_var.end_ms,
+                       probes={"host_compared": int(bool(case.get("has_host")))})
+
+    def shrink_candidates(self, case: dict):
+        return []
+
+    def sample_view(self, case: dict):
+        return {"literal": case["literal_script"], "named": case["script"]}
